@@ -39,13 +39,40 @@ fn res(a: u64) -> Result<u64, u8> { if a & 1 == 1 { Ok(a >> 1) } else { Err((a >
 #[inline(never)] pub fn t27(a: u64, b: u64) -> u64 { let s = small(a); let t = small(b); u64::from(s.starts_with(&t[..1])) + 2 * u64::from(s[..3].iter().any(|x| t.contains(x))) + 4 * u64::from((2u8..6).contains(&s[0])) + 8 * u64::from((2u8..=6).contains(&t[0])) }
 #[inline(never)] pub fn t28(a: u64, b: u64) -> u64 { let s = format!("{}{}", (b'a' + (a % 8) as u8) as char, (a >> 3) % 8 + 1); let bs = s.as_bytes(); u64::from(bs[0]) * 256 + u64::from(bs[1]) + 65536 * s.len() as u64 + 1_000_000 * u64::from(s.bytes().next().filter(|c| (b'a'..b'h').contains(c)).is_some()) + b % 2 }
 #[inline(never)] pub fn t29(a: u64, b: u64) -> u64 { let f = |x: u64, y: u64| x.wrapping_mul(3) ^ y; let g: &dyn Fn(u64, u64) -> u64 = &f; g(a % 1000, b % 1000) + opt(a).is_none_or(|x| x > b) as u64 }
+#[inline(never)] pub fn t30(a: u64, b: u64) -> u64 { let s = small(a); let w = &s[..(b % 7) as usize]; let x = match w.split_first_chunk::<4>() { Some(([p, q, r, t], rest)) => u64::from(*p) + 8 * u64::from(*q) + 64 * u64::from(*r) + 512 * u64::from(*t) + 4096 * rest.len() as u64, None => 99_999 }; x + 1_000_000 * opt(a).into_iter().chain(opt(b)).map(|v| v % 10).sum::<u64>() + 100_000_000 * [opt(a), opt(b), None].into_iter().flatten().count() as u64 }
+#[inline(never)] pub fn t31(a: u64, b: u64) -> u64 { let s = small(a); match *s[..(b % 7) as usize].as_ref() { [x, y] => u64::from(x) * 8 + u64::from(y), [x, .., z] => 100 + u64::from(x) + u64::from(z), [x] => 200 + u64::from(x), [] => 300 } }
+fn tq(a: u64, b: u64) -> Option<u64> { let x = opt(a)?; let y = opt(b)?; Some(x % 100 + y % 100) }
+#[inline(never)] pub fn t32(a: u64, b: u64) -> u64 { tq(a, b).unwrap_or(12345) + small(a).iter_mut().zip((0u8..).zip(small(b).iter())).map(|(x, (i, y))| u64::from(*x) * u64::from(i) + u64::from(*y)).sum::<u64>() * 100_000 + small(a).map(|x| u64::from(x) + 1).iter().sum::<u64>() * 10_000_000 }
+#[derive(Clone, Copy, Default)] struct Sp { index: u8, score: u32 }
+#[inline(never)] pub fn t33(a: u64, b: u64) -> u64 {
+    let sa = small(a); let sb = small(b);
+    let mut buf = [Sp::default(); 8];
+    let mut len = 0usize;
+    for (slot, (index, &x)) in buf.iter_mut().zip((0u8..).zip(sa.iter())) { *slot = Sp { index, score: u32::from(x) * 3 % 5 }; len += 1; }
+    let mut out = 0u64; let mut idx = 0usize;
+    loop {
+        let remaining = &mut buf[idx..len];
+        let best = match remaining.iter().enumerate().rev().max_by_key(|(_, s)| s.score).map(|(i, _)| i) { Some(i) => i, None => break };
+        remaining.swap(0, best);
+        idx += 1;
+        out = out * 8 + u64::from(sb[usize::from(remaining[0].index)]) + u64::from(remaining[0].index);
+    }
+    out
+}
+#[inline(never)] pub fn t34(a: u64, _b: u64) -> u64 { small(a).iter().enumerate().rev().fold(0u64, |acc, (i, x)| acc * 64 + (i as u64) * 8 + u64::from(*x)) }
+#[inline(never)] pub fn t35(a: u64, _b: u64) -> u64 { small(a).iter().enumerate().rev().max_by_key(|(_, x)| **x % 3).map_or(99, |(i, x)| (i as u64) * 8 + u64::from(*x)) }
+#[inline(never)] pub fn t36(a: u64, b: u64) -> u64 { let mut s = small(a); let lo = (b % 3) as usize; let r = &mut s[lo..5]; r.swap(0, (b % 2 + 1) as usize); let f = r[0]; s.iter().fold(u64::from(f), |acc, &e| acc * 8 + u64::from(e)) }
+#[inline(never)] pub fn t37(a: u64, _b: u64) -> u64 { small(a).iter().enumerate().max_by_key(|(_, x)| **x % 3).map_or(99, |(i, x)| (i as u64) * 8 + u64::from(*x)) + 1000 * small(a).iter().enumerate().min_by_key(|(_, x)| **x % 3).map_or(99, |(i, x)| (i as u64) * 8 + u64::from(*x)) }
+fn dbl(x: u64) -> u64 { x.wrapping_mul(2) }
+fn inc(x: u64) -> u64 { x.wrapping_add(1) }
+#[inline(never)] pub fn t38(a: u64, b: u64) -> u64 { let tbl: [(fn(u64) -> u64, u64); 2] = [(dbl, 3), (inc, 5)]; let mk: [fn(u64) -> Option<u64>; 2] = [Some, opt]; tbl.iter().filter_map(|&(f, k)| (f(a % 100) > b % 50).then_some(f(a % 100) * k)).reduce(|x, y| x + y).unwrap_or(7) + 1000 * mk.iter().map(|m| m(b % 9).unwrap_or(3)).sum::<u64>() }
 
 fn main() {
     let args: Vec<String> = std::env::args().collect();
     let id: usize = args[1].parse().unwrap();
     let a: u64 = args[2].parse().unwrap();
     let b: u64 = args[3].parse().unwrap();
-    let fs: [fn(u64, u64) -> u64; 30] = [t00, t01, t02, t03, t04, t05, t06, t07, t08, t09, t10, t11, t12, t13, t14, t15, t16, t17, t18, t19, t20, t21, t22, t23, t24, t25, t26, t27, t28, t29];
+    let fs: [fn(u64, u64) -> u64; 39] = [t00, t01, t02, t03, t04, t05, t06, t07, t08, t09, t10, t11, t12, t13, t14, t15, t16, t17, t18, t19, t20, t21, t22, t23, t24, t25, t26, t27, t28, t29, t30, t31, t32, t33, t34, t35, t36, t37, t38];
     let r = std::panic::catch_unwind(|| fs[id](a, b));
     match r { Ok(v) => println!("OK {v}"), Err(_) => println!("PANIC") }
 }
